@@ -253,6 +253,16 @@ class SetFlow(ast.NodeVisitor):
             if isinstance(n, ast.Call) and isinstance(n.func, ast.Name) and n.func.id == "print":
                 if any(self.is_tainted_expr(a) or self.is_set_expr(a) for a in n.args):
                     self.findings.append((n, "prints in a set's iteration order"))
+            if isinstance(n, ast.Raise) and n.exc is not None:
+                for x in ast.walk(n.exc):
+                    if isinstance(x, ast.Call) and isinstance(x.func, ast.Attribute) and x.func.attr in ("join", "format") and any(
+                        self.is_tainted_expr(a) or self.is_set_expr(a) for a in x.args
+                    ):
+                        self.findings.append((n, "builds an exception message in a set's iteration order"))
+                        break
+            if isinstance(n, ast.Assign) and any(isinstance(t, ast.Attribute) for t in n.targets):
+                if self.is_tainted_expr(n.value):
+                    self.findings.append((n, "stores a sequence in a set's iteration order on the object"))
         return self.findings
 
 
